@@ -83,12 +83,13 @@ pub fn gen_case(rng: &mut Rng, i: usize, maxrecs: usize) -> CovCase {
     let crecs = if i % 3 == 1 { Some(mk(rng, cn, i + 4)) } else { None };
     CovCase {
         k,
-        bs: *rng.pick(&[1usize, 2, 3, 5, 16]),
+        // (bin sizes beyond 2^32: every multiplicity that occurs here is below them, so everything lands in bin 0)
+        bs: *rng.pick(&[1usize, 2, 3, 5, 16, 7, 4_294_967_301, 1 << 40]),
         bc: *rng.pick(&[1usize, 2, 3, 5, 16]),
         norm: i % 2 == 0,
         threads: if big { 8 } else { 1 + rng.below(16) as usize },
         mem: if big { 6.0 } else { *rng.pick(&[0.5f64, 1.0, 6.0]) },
-        delim: *rng.pick(&[" ", ",", "\t"]),
+        delim: *rng.pick(&[" ", ",", "\t", "::", " | ", "\u{e9}", ", "]),
         recs,
         cfq: crecs.is_some() && i % 2 == 1,
         crecs,
@@ -177,7 +178,7 @@ pub fn trace(seed: u64, runs: usize, dir: &str, maxrecs: usize, what: &str) {
                 let crecs: &Vec<Vec<u8>> = c.crecs.as_ref().unwrap_or(&c.recs);
                 println!(
                     "{}",
-                    json!({"ev":"creset","k":c.k,"bs":c.bs,"bc":c.bc,"norm": if c.norm {1} else {0},"crecs":crecs,"recs":c.recs,"threads":c.threads,"mem":c.mem})
+                    json!({"ev":"creset","k":c.k,"bs":clip(c.bs),"bc":c.bc,"norm": if c.norm {1} else {0},"crecs":crecs,"recs":c.recs,"threads":c.threads,"mem":c.mem})
                 );
                 match &res {
                     Ok(path) => {
